@@ -4,7 +4,6 @@ import (
 	"bytes"
 	"fmt"
 	"sort"
-	"sync/atomic"
 
 	"github.com/mk6i/mkdb/storage"
 )
@@ -326,7 +325,7 @@ func (w *World) lruFail(detail string, what string) {
 }
 
 func (w *World) hookLRU(l *storage.LRUCache, kind int, key any, n *storage.VerifNode) {
-	atomic.AddInt64(&Progress, 1)
+	bumpProgress()
 	k, _ := key.(uint64)
 	w.h(13, uint64(kind), k)
 	switch kind {
